@@ -415,9 +415,37 @@ def run_oracle_only(ctx):
             'rule': 'oracle only (model unavailable)', 'samples': texts[:3]}
 
 
+E2E_OPTS = [{'keyword_case': 'upper'}, {'identifier_case': 'upper'}, {'keyword_case': 'lower', 'strip_comments': True}]
+
+
+def oracle_e2e(text, only=None):
+    """The whole of sqlparse.format (serializer included) with a targeted option: every quoted token of the input (single-
+    and double-quoted, back-ticked) comes out with the value it was written with, in order.  Used by the search stage on
+    its candidate inputs (the stream-level oracle above does not run the serializer)."""
+    def quoted(s):
+        return [(str(tt), v) for tt, v in lexer.tokenize(s)
+                if (tt in T.String or tt is T.Name) and v[:1] in ("'", '"', '`') and len(v) >= 2 and v[-1] == v[0]]
+    for fo in ([only] if only else E2E_OPTS):
+        try:
+            src = quoted(text)
+            out = sqlparse.format(text, **fo)
+            got = quoted(out)
+        except Exception:  # noqa  (totality is C07's business)
+            continue
+        if 'identifier_case' in fo:
+            src = [x for x in src if x[1][0] != '`']
+            got = [x for x in got if x[1][0] != '`']
+        if src != got:
+            bad = next((a for a, b in zip(src, got) if a != b), src[-1] if len(src) > len(got) else got[-1] if got else None)
+            return {'input': [ord(c) for c in text], 'options': fo, 'kind': 'e2e_quoted', 'cls': 'e2e_quoted',
+                    'observed': 'format(%r): quoted tokens written %r come out as %r (first difference at %r)'
+                                % (fo, [v for _, v in src][:4], [v for _, v in got][:4], bad)}
+    return None
+
+
 def search(ctx, hints):
     return common.generic_search(ctx, hints, lambda s: oracle(s, None, CORE_KINDS),
-                                 gen=lambda rng: gtf.filter_text(rng)[0])
+                                 gen=lambda rng: gtf.filter_text(rng)[0], cand_oracle=oracle_e2e)
 
 
 def shrink(f):
@@ -425,6 +453,9 @@ def shrink(f):
         return f
     s = ''.join(map(chr, f['input']))
     opts = f.get('options')
+    if f.get('kind') == 'e2e_quoted':
+        _, best = common.shrink_text(s, lambda t: oracle_e2e(t, opts))
+        return best or f
     kind = (f.get('kind'),) if f.get('kind') else ALL_KINDS
     def still(t):
         g = oracle(t, opts, kind)
@@ -442,6 +473,9 @@ def replay(payload):
         if lc:
             g = long_filter_failure(*lc)
             return {'fails': bool(g), 'observed': g}
+    if f.get('kind') == 'e2e_quoted':
+        g = oracle_e2e(''.join(map(chr, f['input'])), f.get('options'))
+        return {'fails': bool(g), 'observed': g}
     kind = (f.get('kind'),) if f.get('kind') else ALL_KINDS
     g = oracle(''.join(map(chr, f['input'])), f.get('options'), kind)
     return {'fails': bool(g), 'observed': g}
